@@ -72,7 +72,18 @@ impl BlobReader {
         let meta = self
             .read_bytes(header.meta_size() as usize)
             .with_context(|| "read record meta")?;
-        let meta = bincode::deserialize(&meta)?;
+        let meta = match bincode::deserialize(&meta) {
+            Ok(meta) => meta,
+            Err(err) => {
+                // The header is valid, so its sizes can be trusted: the reader is left at the next record,
+                // and the damaged one can be stepped over like a record with a wrong data checksum
+                self.read_bytes(header.data_size() as usize)
+                    .with_context(|| "read record data")?;
+                return Err(
+                    ToolsError::record_validation_error(format!("record meta: {}", err)).into(),
+                );
+            }
+        };
 
         let data = self
             .read_bytes(header.data_size() as usize)
